@@ -14,7 +14,7 @@ from ..model import AnalysisError, ClassInfo, src
 from ..report import Report, key_of
 from ..terms import has_opaque, pretty
 from ..types import Ctx
-from .common import TRUSTED_BASE, cfg_nodes_for, effects_of, where
+from .common import TRUSTED_BASE, cfg_nodes_for, effects_of, inl, where
 
 
 def is_concrete(ci: ClassInfo) -> bool:
@@ -178,7 +178,7 @@ def run(A, R: Report, thorough: bool):
     cfg = A.cfg(fdata)
     R.rule('R05.2', 'every exceptional path from run / result processing reaches on_run_error(), the reset of the data object and a re-raise', floor=2)
     protected = []
-    for n in A.typer.own_nodes(fdata):
+    for n in inl(A, fdata):
         if isinstance(n, ast.Call) and isinstance(n.func, ast.Attribute) and isinstance(n.func.value, ast.Name) and n.func.value.id == 'self' \
                 and n.func.attr in ('run', '_process_run_result'):
             protected.append(n)
@@ -213,7 +213,7 @@ def run(A, R: Report, thorough: bool):
     fpr = task.lookup('_process_run_result')
     cfg = A.cfg(fpr)
     R.rule('R05.3', 'every path to save() in _process_run_result passes an accepting type test (or the InMemoryData escape)', floor=1)
-    saves = [n for n in A.typer.own_nodes(fpr) if isinstance(n, ast.Call) and isinstance(n.func, ast.Attribute) and n.func.attr == 'save']
+    saves = [n for n in inl(A, fpr) if isinstance(n, ast.Call) and isinstance(n.func, ast.Attribute) and n.func.attr == 'save']
     R.require(saves, 'anchor: no save() call in Task._process_run_result')
     result_param = [p for p in fpr.params if p != 'self']
     R.require(result_param, 'anchor: _process_run_result has no result parameter')
